@@ -225,7 +225,17 @@ pub fn build_multi_case(case: &Value, env: Arc<Environment>) -> MultiCase {
         .unwrap()
         .iter()
         .enumerate()
-        .map(|(k, j)| Job::Single(Arc::new(single_from(&format!("x{k}"), &j["places"], &j["dem"], dims))))
+        .map(|(k, j)| match j.get("multi").and_then(|m| m.as_array()) {
+            // a multi-task candidate (pickup, then delivery of the same shipment)
+            Some(parts) => {
+                let mut mb = MultiBuilder::default().id(&format!("x{k}"));
+                for (q, part) in parts.iter().enumerate() {
+                    mb = mb.add_job(single_from(&format!("x{k}p{q}"), &part["places"], &part["dem"], dims));
+                }
+                mb.build_as_job().unwrap()
+            }
+            None => Job::Single(Arc::new(single_from(&format!("x{k}"), &j["places"], &j["dem"], dims))),
+        })
         .collect();
     jobs.extend(cands.iter().cloned());
 
